@@ -143,6 +143,66 @@ pub fn cyclic_types() -> Vec<Case> {
             format!("{d}fn main() -> List[i32] {{ let x = []; x.push({e}); x }}\n"),
         ));
     }
+    out.extend(never_holes());
+    out
+}
+
+/// The never type unifies with anything WITHOUT binding a variable, so two
+/// open records whose fields unify may still contain each other: a value with
+/// a `!` somewhere inside a field (`l: List[!]`, `o: !?`, `w: W[!]`, a record
+/// of them) is unified with a value of the same shape that has ITSELF where
+/// the `!` is — through every constructor, at every kind of unification site,
+/// against an open record, a closed record type and a named record.
+fn never_holes() -> Vec<Case> {
+    // (parameter type with the hole, expression of the same shape around `@`)
+    const SHAPES: &[(&str, &str)] = &[
+        ("List[!]", "[@]"),
+        ("!?", "Option.Some(@)"),
+        ("List[List[!]]", "[[@]]"),
+        ("List[!?]", "[Option.Some(@)]"),
+        ("W[!]", "W { inner: @ }"),
+        ("E[!]", "E.X(@)"),
+        ("{ inner: ! }", "{ inner: @ }"),
+        ("{ inner: List[!] }", "{ inner: [@] }"),
+        ("Result[!, i32]", "Result.Ok(@)"),
+    ];
+    const UNIFY: &[&str] = &[
+        "a == b;",
+        "b == a;",
+        "let c = [a, b];",
+        "let c = [b, a];",
+        "let c = if true { a } else { b };",
+        "let c = if true { b } else { a };",
+        "let c = a; c = b;",
+        "let c = match Option.Some(1) { Some(v) => a, None => b };",
+        "let xs = []; xs.push(a); xs.push(b);",
+        "let xs = []; xs.push(b); xs.push(a);",
+    ];
+    let mut out = vec![];
+    for (ty, shape) in SHAPES {
+        for u in UNIFY {
+            for (mk_a, mk_b) in [
+                ("let a = { f: l };", "let b = { f: @ };"),
+                ("let a = { f: l, g: 1 };", "let b = { g: 2, f: @ };"),
+                ("let a = { f: l };", "let b = W2f { f: @ };"),
+                ("let a = W2f { f: l };", "let b = { f: @ };"),
+                ("let a = { f: { f: l } };", "let b = { f: @ };"),
+            ] {
+                let body = format!("{mk_a} {} {u}", mk_b.replace('@', &shape.replace('@', "a")));
+                let mut d = decls_for(&format!("{body} {ty}"));
+                if body.contains("W2f {") {
+                    d.push_str("record W2f[T] { f: T }\n");
+                }
+                if ty.contains("W[") && !d.contains("record W[") {
+                    d.push_str("record W[T] { inner: T }\n");
+                }
+                if ty.contains("E[") && !d.contains("enum E[") {
+                    d.push_str("enum E[T] { X(T), Y }\n");
+                }
+                out.push(Case::single("boundary cyclic-type", format!("{d}fn main(l: {ty}) {{ {body} }}\n")));
+            }
+        }
+    }
     out
 }
 
